@@ -130,7 +130,8 @@ def run(res, tier, rng):
             res.violation("property", "strip_protocol=False does not preserve the scheme", input=dict(url=u, options=o), impl=sp.scheme, expected=r0.scheme)
         if not o["strip_fragment"] and not o["quoted"]:
             from ural.quote import safely_unquote_fragment
-            if sp.fragment != safely_unquote_fragment(r0.fragment):
+            from ural.quote import upper_quoted as _uq3
+            if sp.fragment != safely_unquote_fragment(_uq3(r0.fragment)):          # escapes are upper-cased first
                 res.violation("property", "strip_fragment=False does not preserve the fragment", input=dict(url=u, options=o), impl=sp.fragment, expected=r0.fragment)
         # strip_authentication=False preserves the userinfo exactly (unescaping aside)
         if not o["strip_authentication"] and not o["quoted"] and "@" in r0.netloc:
